@@ -427,6 +427,22 @@ def judge_lookup(c):
              key=("lookup", c.get("op"), impl["status"]))
 
 
+def judge_lookup_sweep(c):
+    """C15 / C18: none of the generated unregistered operator-type strings resolves to an operator"""
+    impl = c["impl"]
+    key = ("lookup-sweep", impl["status"])
+    if impl["status"] != "ok":
+        return J(corr="skip", verdict="violates", tag="lookup-sweep." + impl["status"], what=f"the lookup sweep failed: {impl.get('msg','')[:120]}", key=key)
+    ex = impl.get("extra") or {}
+    if ex.get("resolved"):
+        return J(corr="skip", verdict="violates", tag="lookup", key=key,
+                 what=f"unregistered operator type(s) {ex['resolved'][:4]} resolve to an operator instead of the unsupported-operator error")
+    if ex.get("other_error"):
+        return J(corr="skip", verdict="violates", tag="lookup", key=key,
+                 what=f"unregistered operator type(s) {ex['other_error'][:4]} give another error / a panic instead of the unsupported-operator error")
+    return J(corr="skip", verdict="holds", key=key)
+
+
 def judge_fresh(c):
     ex = (c["impl"].get("extra") or {})
     verdict, what = "holds", ""
@@ -440,7 +456,8 @@ def judge_fresh(c):
              key=("fresh", c.get("op"), ex.get("used"), ex.get("state_changed_by_use")))
 
 
-JUDGES = {"op": judge_op, "bcast": judge_op, "gate": judge_gate, "lookup": judge_lookup, "fresh": judge_fresh}
+JUDGES = {"op": judge_op, "bcast": judge_op, "gate": judge_gate, "lookup": judge_lookup, "fresh": judge_fresh,
+          "lookup-sweep": judge_lookup_sweep}
 
 
 def judge(c):
